@@ -182,6 +182,28 @@ func (g *c08Gen) msg() string {
 		if g.rng.Chance(1, 4) {
 			n = 32769 + g.rng.Intn(3)
 		}
+		if g.rng.Chance(1, 2) {
+			// over the limit counted in CHARACTERS, with characters of several bytes at the head, at the tail or throughout
+			// (the limit of the CRD counts characters, not bytes)
+			chars := 32769 + g.rng.Intn(6000)
+			if g.rng.Chance(1, 4) {
+				chars = 32769 + g.rng.Intn(3)
+			}
+			wide := []string{"é", "日", "𝛑"}[g.rng.Intn(3)]
+			split := g.rng.Intn(chars)
+			shape := g.rng.Intn(3)
+			var b strings.Builder
+			fmt.Fprintf(&b, "m%d: ", g.nmsg)
+			for i := utf8.RuneCountInString(b.String()); i < chars; i++ {
+				switch {
+				case shape == 0 && i >= split, shape == 1 && i < split, shape == 2 && i%3 != 0:
+					b.WriteString(wide)
+				default:
+					b.WriteByte('x')
+				}
+			}
+			return b.String()
+		}
 	}
 	fill := c08Fill[0]
 	if g.rng.Chance(1, 5) {
@@ -1021,7 +1043,7 @@ func TestVerifC08(t *testing.T) {
 		if out.Thorough() && i%40 == 39 {
 			g.size = 12 + g.rng.Intn(12)
 		}
-		g.long = g.rng.Chance(1, 50)
+		g.long = g.rng.Chance(1, 20)
 		kind := i % c08NKinds
 		if g.rng.Chance(1, 3) { // merging kinds are where the interesting behaviour is
 			kind = g.rng.Intn(c08SF + 1)
